@@ -403,6 +403,12 @@ func histConfig(g *pkgGen, i int) *genOut {
 		c.Contents = append(c.Contents, &files.Content{Destination: fmt.Sprintf("/var/lib/hist%d/complete", i), Type: "dir",
 			FileInfo: &files.ContentFileInfo{Owner: "svc", Group: "svc", Mode: 0o750, MTime: time.Unix(1500000000, 0).UTC()}})
 	}
+	// a symbolic link with every file_info field configured whose target exists on the build host (planning looks at
+	// the target: whatever it learns belongs to the build, not to the parsed configuration)
+	if i%3 != 1 {
+		c.Contents = append(c.Contents, &files.Content{Source: "src/f1", Destination: fmt.Sprintf("/var/lib/hist%d/live-link", i), Type: "symlink",
+			FileInfo: &files.ContentFileInfo{Owner: "svc", Group: "svc", Mode: 0o777, MTime: time.Unix(1500000000, 0).UTC()}})
+	}
 	// lists of different settings that name the same package (a packager may reconcile them - on its own copy)
 	if i%3 != 2 {
 		// (names with capitals, blanks around the operator, a tab: what a packager may want to tidy up for its own format)
